@@ -74,7 +74,7 @@ func TestC10Close(t *testing.T) {
 			nctx = rapid.IntRange(0, 2).Draw(t, "nctx")
 		}
 		act := map[string]bool{}
-		for _, a := range []string{"recv", "send", "redial", "silentPeer", "silentServer", "peerCloses", "device", "peer"} {
+		for _, a := range []string{"recv", "send", "redial", "silentPeer", "silentServer", "peerCloses", "device", "peer", "parked"} {
 			act[a] = rapid.Bool().Draw(t, a)
 		}
 		if !act["peer"] {
@@ -82,6 +82,9 @@ func TestC10Close(t *testing.T) {
 		}
 		if !(tr == "tcp" || tr == "ipc") {
 			act["silentPeer"], act["silentServer"] = false, false
+		}
+		if !listens {
+			act["parked"] = false // dialers can only park on the socket's own listener
 		}
 		if act["silentServer"] && stats.Known(knownDialerHandshakeLeak) {
 			stats.Excluded(knownDialerHandshakeLeak)
@@ -146,7 +149,25 @@ func TestC10Close(t *testing.T) {
 		if p.Name == "req" {
 			_ = S.SetOption(mangos.OptionRetryTime, 20*time.Millisecond) // resend timers in flight at Close
 		}
-		sev := fixture.Hook(S)
+		// "parked": while the accept loop is held inside an Attaching callback, further dialers
+		// queue up at the transport; closing the socket must release every one of them.
+		var holdMu sync.Mutex
+		holding := false
+		hold := make(chan struct{})
+		var holdOnce sync.Once
+		releaseHold := func() { holdOnce.Do(func() { close(hold) }) }
+		defer releaseHold()
+		sev := fixture.HookWith(S, func(ev mangos.PipeEvent, _ mangos.Pipe) {
+			if ev != mangos.PipeEventAttaching {
+				return
+			}
+			holdMu.Lock()
+			h := holding
+			holdMu.Unlock()
+			if h {
+				<-hold
+			}
+		})
 		var addr string
 		if listens {
 			a, _, err := fixture.Listen(S, tr)
@@ -278,6 +299,27 @@ func TestC10Close(t *testing.T) {
 			act["device"] = false
 		}
 
+		parkedRes := make(chan error, 8)
+		nparked := 0
+		if act["parked"] {
+			holdMu.Lock()
+			holding = true
+			holdMu.Unlock()
+			nparked = rapid.IntRange(2, 5).Draw(t, "nparked")
+			for i := 0; i < nparked; i++ {
+				np := fixture.New(p.PeerName)
+				others = append(others, np)
+				go func() {
+					dd, err := np.NewDialer(addr, fixture.DialOpts(tr))
+					if err == nil {
+						err = dd.Dial() // synchronous: the first one is held in the hook, the rest wait
+					}
+					parkedRes <- err
+				}()
+				time.Sleep(time.Millisecond)
+			}
+			inflight++
+		}
 		// handles: socket + contexts
 		type handle struct {
 			name string
@@ -414,6 +456,15 @@ func TestC10Close(t *testing.T) {
 			sClosed = true
 			fail("close-hangs", "Socket.Close did not return within %v", prompt)
 			return
+		}
+		releaseHold()
+		for i := 0; i < nparked; i++ {
+			select {
+			case <-parkedRes: // any result: refused, closed, or even connected-then-dropped
+			case <-time.After(time.Until(t0.Add(prompt + time.Second))):
+				fail("parked-dial-not-released", "%d of %d synchronous Dial calls that were waiting on the socket's %s listener are still blocked %v after the socket was closed", nparked-i, nparked, tr, time.Since(t0).Round(time.Millisecond))
+				i = nparked
+			}
 		}
 		for i := 0; i < pending; i++ {
 			select {
